@@ -5,18 +5,17 @@ import (
 	"fmt"
 	"strings"
 
-	"pgregory.net/rapid"
-
 	"verif/harness/evid"
 	"verif/harness/kgen"
 )
 
-type judgeFn func(check string, c Case, rt *rapid.T, labels ...string)
+type judgeFn func(check string, idx int, c Case, labels ...string)
 
 func u32p(v uint32) *uint32 { return &v }
 
 // enumerate runs the bounded-exhaustive parts.
-func enumerate(r *evid.Run, judge judgeFn) {
+// judge records a failing case per (check, signature), flush reports them once a parallel section is over.
+func enumerate(r *evid.Run, judge judgeFn, flush func()) {
 	det := func(label string, n int) string { return hex.EncodeToString(kgen.DetBytes(r.Seed(), label, n)) }
 
 	// ---- layout grid --------------------------------------------------------------------------
@@ -106,8 +105,9 @@ func enumerate(r *evid.Run, judge judgeFn) {
 			c.Lookups = append(c.Lookups, LookupM{Comps: m.Comps, Realm: m.Realm, KVNO: kv, EType: int32(m.EType), Mut: "exact"},
 				LookupM{Comps: m.Comps, Realm: m.Realm, KVNO: uint32(m.KVNO8) + 256, EType: int32(m.EType), Mut: "other-kvno"})
 		}
-		judge("grid", c, nil, labels...)
+		judge("grid", i, c, labels...)
 	})
+	flush()
 	r.Exhaustive("keytab layout grid: version x entries 0..3 x components 0..4 x 32-bit key version mode x hole x slack x file end")
 
 	// ---- name length bounds -------------------------------------------------------------------
@@ -146,8 +146,9 @@ func enumerate(r *evid.Run, judge judgeFn) {
 			cs[len(cs)-1] = cs[len(cs)-1][:j.cl-1]
 			c.Lookups = append(c.Lookups, LookupM{Comps: cs, Realm: m.Realm, KVNO: 3, EType: 18, Mut: "comp-mod"})
 		}
-		judge("names", c, nil, fmt.Sprintf("version%d", j.ver), fmt.Sprintf("realm-len%d", j.rl), fmt.Sprintf("comp-len%d", j.cl))
+		judge("names", i, c, fmt.Sprintf("version%d", j.ver), fmt.Sprintf("realm-len%d", j.rl), fmt.Sprintf("comp-len%d", j.cl))
 	})
+	flush()
 	r.Exhaustive("name lengths {0,1,254,255,256,257,32767} for realm x component, both versions")
 
 	// ---- lookup grid --------------------------------------------------------------------------
@@ -231,7 +232,8 @@ func enumerate(r *evid.Run, judge judgeFn) {
 	evid.Parallel(len(ljobs), 16, func(i int) {
 		j := ljobs[i]
 		c := Case{Kind: "lookup-grid", File: files[[2]int{j.ver, j.ord}], Lookups: []LookupM{j.l}}
-		judge("lookup-grid", c, nil, fmt.Sprintf("version%d", j.ver), fmt.Sprintf("order%d", j.ord))
+		judge("lookup-grid", i, c, fmt.Sprintf("version%d", j.ver), fmt.Sprintf("order%d", j.ord))
 	})
+	flush()
 	r.Exhaustive("lookups: 6 realms x 9 component lists x 4 etypes x 12 key versions on a fixed 15-entry keytab, both versions, three entry orders")
 }
